@@ -82,21 +82,30 @@ def lemma_vacuity_probes(woven, info):
     """must-fail probe for every tagged lemma (`//# props ...`): `assert(false)` as first statement of its body.
     A lemma whose hypotheses are contradictory would prove it.  Inserted on the same line -> line numbers unchanged."""
     lines = woven.split('\n')
-    pend = False
-    name = None
-    for i, l in enumerate(lines):
-        if re.match(r'\s*//# props ', l):
-            pend = True
-            continue
-        if pend:
-            m = re.match(r'\s*(?:#\[[^\]]*\]\s*)*(?:pub )?(?:(?:open|closed|broadcast) )*proof fn (\w+)', l)
-            if m:
-                name = m.group(1)
-            if name and l.rstrip() == '{':
-                lines[i] = '{ assert(false); //@@VACUITY-PROBE-LEMMA ' + name
-                info['line_meta'][i + 1] = {'fn': None, 'label': 'vacuity-probe-lemma', 'props': [], 'kind': 'vacuity', 'where': ('', 0), 'text': name}
-                pend = False
-                name = None
+    i = 0
+    while i < len(lines):
+        if re.match(r'\s*//# props ', lines[i]):
+            j = i + 1
+            name = None
+            while j < len(lines):
+                m = re.match(r'\s*(?:#\[[^\]]*\]\s*)*(?:pub )?(?:(?:open|closed|broadcast) )*proof fn (\w+)', lines[j])
+                if m and name is None:
+                    name = m.group(1)
+                elif re.match(r'\s*(?:pub )?(?:(?:open|closed|broadcast|uninterp) )*(?:spec |proof |exec )?fn \w+', lines[j]) and name is not None:
+                    break           # next item reached without finding the body: give up on this lemma
+                if name is not None:
+                    if lines[j].rstrip() == '{':
+                        lines[j] = '{ assert(false); //@@VACUITY-PROBE-LEMMA ' + name
+                    elif lines[j].rstrip().endswith('{}'):
+                        lines[j] = lines[j].rstrip()[:-2] + '{ assert(false); } //@@VACUITY-PROBE-LEMMA ' + name
+                    else:
+                        j += 1
+                        continue
+                    info['line_meta'][j + 1] = {'fn': None, 'label': 'vacuity-probe-lemma', 'props': [], 'kind': 'vacuity', 'where': ('', 0), 'text': name}
+                    break
+                j += 1
+            i = j
+        i += 1
     return '\n'.join(lines)
 
 
@@ -236,8 +245,12 @@ def map_diag(model, d, fname):
     elif res['kind'] in ('invariant', 'assertion'):
         cand = [s['line_start'] for s in prim]
     for ln in cand:
-        # a multi-line clause: walk back to the closest labelled line of the same fn
-        for k in range(ln, max(ln - 40, 0), -1):
+        # a multi-line clause: walk back to the closest labelled line of the same fn (assertions: same line only,
+        # unless they are part of a labelled multi-line proof block)
+        back = 40
+        if res['kind'] == 'assertion' and model.line_meta.get(ln, {}).get('kind') == 'vacuity':
+            back = 1
+        for k in range(ln, max(ln - back, 0), -1):
             mt = model.line_meta.get(k)
             if mt is not None:
                 if mt['kind'] == 'vacuity' or mt['fn'] == res['fn'] or res['kind'] == 'postcondition':
